@@ -71,6 +71,10 @@ use std::borrow::Cow;
 #[derive(Encode, Decode, CborLen, Debug, PartialEq)] struct RefA { #[n(0)] id: u8, #[n(1)] c: std::cell::RefCell<Option<u8>> }
 #[derive(Encode, Decode, CborLen, Debug, PartialEq)] #[cbor(map)] struct RefM { #[n(0)] c: std::cell::RefCell<Option<u8>>, #[n(1)] id: u8 }
 
+/// a map-encoded reader that knows indices 0 and 2 of a writer's 0..3 (a gap below its highest index, unknown entries behind it)
+#[derive(Encode, Decode, CborLen, Debug, PartialEq)] #[cbor(map)] struct GapM { #[n(0)] a: u8, #[n(2)] c: u8 }
+#[derive(Encode, Decode, CborLen, Debug, PartialEq)] struct GapOuter { #[n(0)] m: GapM, #[n(1)] z: u8 }
+
 /// a three-state user type: `Keep` is its nil value (left out by the derived encoder, filled in by `Decode::nil`), `Clear` is written as
 /// `null` — a present value, which only the type's own decoder can tell from a number
 #[derive(Debug, PartialEq, Clone, Copy)] enum Patch { Keep, Clear, Set(u8) }
@@ -232,6 +236,12 @@ pub fn run(w: &[&str]) -> String {
         ("CellM", [id, p]) => rt(&CellM { id: id.parse().ok()?, c: std::cell::Cell::new(opt_u8(p)?) }, |x| format!("{},{}", x.id, show_opt(&x.c.get()))),
         ("RefA", [id, p]) => rt(&RefA { id: id.parse().ok()?, c: std::cell::RefCell::new(opt_u8(p)?) }, |x| format!("{},{}", x.id, show_opt(&x.c.borrow()))),
         ("RefM", [id, p]) => rt(&RefM { id: id.parse().ok()?, c: std::cell::RefCell::new(opt_u8(p)?) }, |x| format!("{},{}", x.id, show_opt(&x.c.borrow()))),
+        ("GapRead", [which, h]) => {
+            let b = unhex(h)?;
+            let mut d = minicbor::Decoder::new(&b);
+            let r = if *which == "M" { d.decode::<GapM>().map(|x| format!("{},{}", x.a, x.c)) } else { d.decode::<GapOuter>().map(|x| format!("{},{},{}", x.m.a, x.m.c, x.z)) };
+            format!("{} len=0 dec={} pos=0", hex(&b), match r { Ok(v) => format!("{}@{}", v, d.position()), Err(e) => format!("err:{}", dclass(&e)) })
+        }
         ("IoT", [k]) => { let v = match *k { "A" => IoT::A, "B" => IoT::B, _ => IoT::C }; rt(&v, |x| format!("{:?}", x)) }
         ("TrT", [n]) => rt(&TrT(n.parse().ok()?), |x| format!("{}", x.0)),
         ("TrOuter", [a, b, k]) => rt(&TrOuter { a: TrT(a.parse().ok()?), b: if *b == "N" { None } else { Some(TrT(b.parse().ok()?)) }, k: match *k { "A" => IoT::A, "B" => IoT::B, _ => IoT::C } },
